@@ -15,6 +15,7 @@ import (
 // followed by commits that reach the end of that segment is the case short histories cannot build.
 
 type c19LongJob struct {
+	Merge bool  `json:"merge"` // the Merge families of C15 instead of the KV families of C02
 	Seg   int64 `json:"seg"`
 	Shard int   `json:"shard"`
 	Of    int   `json:"of"`
@@ -33,6 +34,50 @@ func c19LongWorker(arg json.RawMessage) interface{} {
 	}
 	seen := map[string]bool{}
 	idx := 0
+	if j.Merge {
+		// Merge is refused in sparse mode: RAM index modes only
+		var ram []core.Cfg
+		for _, v := range variants {
+			if v.Mode != core.S {
+				ram = append(ram, v)
+			}
+		}
+		queries := mixedObsFor(core.Cfg{Mode: core.K})
+		for n := 2; n <= j.NMax; n++ {
+			for k := 1; k <= 3; k++ {
+				for _, d := range []int{0, 3} {
+					for _, m := range []int{0, 1} {
+						idx++
+						if idx%j.Of != j.Shard {
+							continue
+						}
+						hist := longHistory(n, k, d, 0, m)
+						var leaf eng.Leaf
+						c19Compare(base, ram, true, hist, queries, &leaf)
+						out.Histories++
+						out.Steps += len(hist) * len(ram)
+						out.Evals += leaf.Evals
+						for _, v := range leaf.Viol {
+							v.Tags = append(v.Tags, "long", "merge")
+							v.Detail = append([]string{fmt.Sprintf("Merge family n=%d k=%d delete-every=%d m=%d seg=%d", n, k, d, m, j.Seg)}, v.Detail...)
+							if v.Extra == nil {
+								v.Extra = map[string]interface{}{}
+							}
+							v.Extra["profile"] = "C19/kv"
+							if kk := v.Kind + v.What + v.Cfg.String(); !seen[kk] {
+								seen[kk] = true
+								out.Viol = append(out.Viol, v)
+							}
+						}
+						if out.Sample == "" {
+							out.Sample = fmt.Sprintf("Merge family seg=%d n=%d k=%d delete-every=%d m=%d: %d ops x %d option combinations", j.Seg, n, k, d, m, len(hist), len(ram))
+						}
+					}
+				}
+			}
+		}
+		return out
+	}
 	for n := 4; n <= j.NMax; n++ {
 		var queries []core.Call
 		for i := 0; i < n; i++ {
@@ -81,6 +126,16 @@ func runC19Long(r *Run) {
 	for _, seg := range []int64{100, 150, 200, 260} {
 		for s := 0; s < shards; s++ {
 			args = append(args, c19LongJob{Seg: seg, Shard: s, Of: shards, NMax: nmax})
+		}
+	}
+	// Merge families: segment size 94 = two 47-byte records (exactly full segments), and 100
+	mmax := 6
+	if r.Tier == "thorough" {
+		mmax = 10
+	}
+	for _, seg := range []int64{94, 100} {
+		for s := 0; s < shards; s++ {
+			args = append(args, c19LongJob{Merge: true, Seg: seg, Shard: s, Of: shards, NMax: mmax})
 		}
 	}
 	r.Pool.ParallelCustom("c19long", args, func(i int, raw json.RawMessage, okk bool) {
